@@ -783,6 +783,60 @@ pub fn wait_quiescent(tracer: u32, sent: u64, timeout: Duration) -> Wait {
     }
 }
 
+/// `wait_finished` with a progress-based watchdog (see `wait_quiescent_progress`)
+pub fn wait_finished_progress(tracer: u32, idle: Duration, cap: Duration) -> bool {
+    let t0 = Instant::now();
+    let mut last = u64::MAX;
+    let mut last_change = Instant::now();
+    loop {
+        if wait_finished(tracer, Duration::from_millis(200)) {
+            return true;
+        }
+        let x = {
+            let w = lock();
+            if w.overflow || session_died(&w, tracer) {
+                return false;
+            }
+            *w.xrecv.get(&tracer).unwrap_or(&0)
+        };
+        if x != last {
+            last = x;
+            last_change = Instant::now();
+        }
+        if last_change.elapsed() > idle || t0.elapsed() > cap {
+            return false;
+        }
+    }
+}
+
+/// like `wait_quiescent`, but the watchdog only fires when the session has not received any external event for
+/// `idle` (progress based: a long backlog on a loaded machine is not a timeout), hard cap `cap`
+pub fn wait_quiescent_progress(tracer: u32, sent: u64, idle: Duration, cap: Duration) -> Wait {
+    let t0 = Instant::now();
+    let mut last = u64::MAX;
+    let mut last_change = Instant::now();
+    loop {
+        match wait_quiescent(tracer, sent, Duration::from_millis(200)) {
+            Wait::Timeout => {}
+            w => return w,
+        }
+        let x = {
+            let w = lock();
+            if w.overflow || session_died(&w, tracer) {
+                return Wait::Timeout;
+            }
+            *w.xrecv.get(&tracer).unwrap_or(&0)
+        };
+        if x != last {
+            last = x;
+            last_change = Instant::now();
+        }
+        if last_change.elapsed() > idle || t0.elapsed() > cap {
+            return Wait::Timeout;
+        }
+    }
+}
+
 /// Waits until the session is blocked in its external queue having consumed at least `min_consumed`
 /// external events, and stays like that for `stable`; for documents that send events to themselves
 /// without announcing them.
